@@ -61,6 +61,8 @@ pub open spec fn gen_inv(c: Compiler) -> bool {
     peephole_inv(c) && sym_wf(c.symbols)
     // a remembered `antwoord` means nothing falls out of the end of the code (what the Function arm's peephole relies on)
     && (c.last_instruction == Some(OpCode::ReturnValue) ==> c.height@ is Dead)
+    // static heights count values of the current flow's operand area: never negative
+    && hcovers(c.height@, 0)
 }
 
 /// the pending-`stop` list of loop context i, as positions
@@ -168,6 +170,9 @@ impl Compiler {
     // PROVED-BY: O02.emit c02_emit (Kani, real Compiler::emit_opcode / emit_u8 / emit_u16)
     #[verifier::external_body]
     fn emit_opcode(&mut self, op: OpCode)
+        // O02.pop (compile-side half of "the operand stack is never popped when empty"): on every path that reaches the
+        // new instruction the static height covers what it pops - an obligation of EVERY call site in the generator
+        requires hcovers(old(self).height@, op_needs(op))
         ensures final(self).instructions@ == old(self).instructions@.push(opcode_byte(op)), final(self).last_instruction == Some(op), same_but_code(*old(self), *final(self)),
                 // GHOST instrumentation (definition of the static height): the emitted opcode's effect, or the end of the flow
                 final(self).height@ == (if op_ends_flow(op) { H::Dead } else { hplus(old(self).height@, op_delta(op)) }),
